@@ -17,7 +17,8 @@ NON_ELF = ["text.txt", "empty", "trunc.elf", "garbage.bin", "adir", "elfhdr-only
 
 LIT_INTS = [("I", 0), ("I", 1), ("I", -1), ("I", 7), ("U", 2**64 - 1), ("I", -2**63),
             ("U", 255), ("I", 42), ("U", 65536), ("I", 3)]
-LIT_STRS = [b"", b"a", b"foo", b"hello world", b"a\x00b", b"\xff\xfe", b"%s", b"main", b"x\ny"]
+LIT_STRS = [b"", b"a", b"foo", b"hello world", b"a\x00b", b"\xff\xfe", b"%s", b"main", b"x\ny",
+            b"a.*", b"^f", b"(", b"[a", b"o$", b"foo"]
 DOMS = ["dec", "dec", "dec", "hex", "oct", "bin", "bool", "tag", "attr"]
 
 
@@ -184,6 +185,9 @@ def pull_pattern(rng, sweep_k=None):
     return rng.randint(2, PULL_CAP)
 
 
+PULL_AFTER_END = False
+
+
 def task_steps(b, c, q, i, npulls, keep_at=None):
     """EXEC, pulls, CANCEL for one result set.  Returns (steps, kept handle)."""
     r = b.res()
@@ -196,6 +200,9 @@ def task_steps(b, c, q, i, npulls, keep_at=None):
             steps.append(P.step(c, "PULL", r, kept))
         else:
             steps.append(P.step(c, "PULL", r))
+    if PULL_AFTER_END and b.r.random() < 0.4:
+        for _ in range(b.r.choice([1, 2])):
+            steps.append(P.step(c, "PULLX", r))
     steps.append(P.step(c, "CANCEL", r))
     return steps, kept
 
@@ -265,6 +272,8 @@ def gen_history(rng, profile, faults=False, sweep=False, hostile=False, reuse=Fa
     sweep   : C13 style -- one (program, input) pair, cancel after every k
     hostile : C14 style -- programs come from the hostile generator
     """
+    global PULL_AFTER_END
+    PULL_AFTER_END = (profile == "C14")
     b = Builder(rng, profile)
     plan = b.plan
     common_knobs(rng, plan)
@@ -346,6 +355,10 @@ def gen_history(rng, profile, faults=False, sweep=False, hostile=False, reuse=Fa
                 # hostile programs that compile are only executed if they
                 # cannot legitimately run forever
                 info["noexec"] = ("*" in text or "+" in text)
+            elif damaged and g["dw"] and rng.random() < 0.7:
+                text = rng.choice(REUSE_PROGRAMS + ["entry parent offset", "entry child parent offset",
+                                                    "unit root child parent offset", "entry root offset"])
+                info = {"bomb": False, "out": ["X"], "src": "cache-dependent"}
             else:
                 text, info = choose_program(rng, g["types"], g["dw"])
             mode = rng.choice([0, 0, 1, 2]) if "\x00" not in text else rng.choice([1, 2])
@@ -452,6 +465,12 @@ def gen_history(rng, profile, faults=False, sweep=False, hostile=False, reuse=Fa
                                                                "(|F| F)", "dup apply"]), {"out": ["X"]})
                 q2 = b.q()
                 i2 = b.i()
+                share = [x for x in runnable if x[2] is not None and x[2]["dw"]]
+                if top in ("D", "X") and g["dw"] and share and rng.random() < 0.5:
+                    # the derived value (e.g. the raw flavour of the same
+                    # Dwarf) goes through a query that other inputs use too
+                    sq, sp, sg, sinfo = rng.choice(share)
+                    text2, info2 = b.plan["progs"][sp]["text"], sinfo
                 extra = [P.step(c, "PARSE", q2, b.prog(text2, 0)),
                          P.step(c, "MKIN", i2, "O:%d:%d" % (kept, depth))]
                 if rng.random() < 0.5:
@@ -587,6 +606,8 @@ def gen_mustfail(rng, profile="C14"):
             s = P.step(c, "PULL", r)
             s["expect"] = e
             st.append(s)
+        for _ in range(rng.choice([0, 1, 2])):
+            st.append(P.step(c, "PULLX", r))      # pulls after the failure: contract only
         st.append(P.step(c, "CANCEL", r))
         b.scripts[c] += st
     return b.merge()
